@@ -1,7 +1,10 @@
 """C06 — Module loading is once-only, terminating and cycle-safe."""
 import json
 import os
+import sys
 from lib.vlib import *
+
+sys.setrecursionlimit(20000)
 
 META = {
     "property_id": "C06",
@@ -24,13 +27,22 @@ META = {
     "design_ref": "DESIGN.md §6 C06",
 }
 
+# sizes of the scale family (chains / cycles / packages side by side / load statements per file): around powers of two
+SIZES_QUICK = [12, 33, 65, 130]
+SIZES_THOROUGH = [12, 17, 33, 65, 130, 257, 400]
+
 HDR = "From Coq Require Import List NArith.\nImport ListNotations.\nFrom Dawn Require Import Loader.Model Loader.Run.\n"
 
 
 # ---------------------------------------------------------------------------------------------
 # scenario helpers
 
-def mod_label(name):
+UNKNOWN_PROJECT = "example.com/lib"
+
+
+def mod_label(name, faults=None):
+    if faults and faults.get(name, {}).get("kind") == "unknownproj":
+        return "module:%s//:%s.dawn" % (UNKNOWN_PROJECT, name)
     return "module://:%s.dawn" % name
 
 
@@ -38,17 +50,35 @@ def pkg_label(d):
     return "module://%s:BUILD.dawn" % d
 
 
+def executed_loads(loads, fault):
+    """the load statements of a file that run before the file's own fault (all of them without one)"""
+    loads = loads or []
+    if not fault:
+        return loads
+    if fault["kind"] in ("fail", "badsym"):
+        return loads[:fault["at"]]
+    return []          # missing, dir, syntax, unknownproj: nothing of the file runs
+
+
 def scenario_graph(r):
-    """label-string graph of a run: {label: [labels]} and the list of roots (package files, harness order)."""
+    """label-string graph of a run: {label: [labels]} (for a file that fails by itself: the load statements that run
+    before it does), the list of roots (package files, harness order) and the set of labels that fail by themselves."""
     g = {}
+    bad = set()
+    faults = r.get("faults") or {}
     for n, ls in r["mods"].items():
-        g[mod_label(n)] = [mod_label(x) for x in (ls or [])]
+        l = mod_label(n, faults)
+        g[l] = [mod_label(x, faults) for x in executed_loads(ls, faults.get(n))]
+        if n in faults:
+            bad.add(l)
     roots = []
     for p in r["pkgs"]:
         l = pkg_label(p["dir"])
-        g[l] = [mod_label(x) for x in (p["loads"] or [])]
+        g[l] = [mod_label(x, faults) for x in executed_loads(p["loads"], p.get("fault"))]
+        if p.get("fault"):
+            bad.add(l)
         roots.append(l)
-    return g, roots
+    return g, roots, bad
 
 
 def reachable(g, roots):
@@ -156,7 +186,7 @@ def linearise(log):
 
 
 def render_case(r):
-    g, roots = scenario_graph(r)
+    g, roots, badset = scenario_graph(r)
     ids = {}
     for l in sorted(g):
         ids[l] = len(ids)
@@ -208,13 +238,18 @@ def render_case(r):
         items.append("(%d, %s)" % (t, ev))
     graph = cq_list(["(%d, %s)" % (ids[l], cq_list(["%d" % ids[x] for x in g[l]], "label")) for l in sorted(g)])
     execs = cq_list([L(l) for l in sorted(r["loading"])], "label")
-    return ("(mkCase %s %s %s %s %s)" % (graph, cq_list(["%d" % ids[x] for x in roots], "label"),
-                                        cq_list(items, "(nat * lev)"), cq_bool(r["err"] == ""), execs)), moved
+    return ("(mkCase %s %s %s %s %s %s)" % (graph, cq_list(["%d" % ids[x] for x in roots], "label"),
+                                           cq_list(["%d" % ids[x] for x in sorted(badset)], "label"),
+                                           cq_list(items, "(nat * lev)"), cq_bool(r["err"] == ""), execs)), moved
 
 
 def brief(r):
-    return {"class": r["class"], "mods": r["mods"], "pkgs": r["pkgs"], "jitter_seed": r["jseed"], "err": r["err"],
-            "hang": r["hang"], "module_loading_events": r["loading"]}
+    return {"class": r["class"], "mods": r["mods"], "pkgs": r["pkgs"],
+            "faults (files that fail by themselves, see c06Fault in the harness)": r.get("faults") or {},
+            "schedule": {"jitter_seed": r["jseed"], "rendezvous": r.get("rendezvous", False),
+                         "rendezvous_modules": r.get("rvmods") or [], "rendezvous_timeouts": r.get("rv_timeouts", 0)},
+            "err": r["err"], "hang": r["hang"],
+            "module_loading_events": r["loading"] if len(r["loading"]) <= 40 else "%d labels" % len(r["loading"])}
 
 
 def run(ctx):
@@ -224,8 +259,9 @@ def run(ctx):
     out = os.path.join(ctx.tmp, "c06.jsonl")
     nrand = 200 if ctx.quick() else 1500
     reps = 6 if ctx.quick() else 8
+    sizes = SIZES_QUICK if ctx.quick() else SIZES_THOROUGH
     env = {"VERIF_OUT": out, "VERIF_SEED": str(ctx.seed), "VERIF_NRAND": str(nrand), "VERIF_REPS": str(reps),
-           "VERIF_WATCHDOG_MS": "8000"}
+           "VERIF_WATCHDOG_MS": "8000", "VERIF_SIZES": ",".join(map(str, sizes))}
     rc, o = ctx.go_overlay_test("", {"zz_verif_c06_load_test.go": os.path.join(HARNESS, "overlay/root/zz_verif_c06_load_test.go")},
                                 "^TestVerifC06$", env)
     if rc != 0:
@@ -240,9 +276,10 @@ def run(ctx):
     oracle_fail = 0
     by_scenario = {}
     for r in runs:
-        g, roots = scenario_graph(r)
+        g, roots, badset = scenario_graph(r)
         reach = reachable(g, roots)
         cyc = has_cycle(g, reach)
+        faulty = bool(badset & reach)
         ec = errclass(r)
         k = "%s:%s" % (r["class"], ec)
         dist[k] = dist.get(k, 0) + 1
@@ -260,7 +297,7 @@ def run(ctx):
         if dup:
             bad.append("module file executed more than once: %s" % dup)
         if not r["hang"] and not r.get("panic"):
-            if not cyc:
+            if not cyc and not faulty:
                 et, ef = expected_targets(r)
                 if ec != "nil":
                     bad.append("acyclic load graph failed to load: %s" % r["err"][:200])
@@ -269,9 +306,13 @@ def run(ctx):
                                % (r["targets"], r["flags"], et, ef))
                 elif set(r["loading"]) != reach:
                     bad.append("executed set %s differs from the reachable set %s" % (sorted(r["loading"]), sorted(reach)))
-            elif ec != "cyclic":
+            elif cyc and not faulty and ec != "cyclic":
                 bad.append("a load cycle is reachable from a package but Load returned %s"
                            % ("no error" if ec == "nil" else r["err"][:200]))
+            elif cyc and ec == "nil":
+                bad.append("a load cycle is reachable from a package but Load returned no error")
+            # (a reachable file that fails by itself, no cycle: the property only asks that Load ends and runs
+            #  nothing twice; that Load then reports an error is the model's theorem and is compared in the replay)
         # bounded walk: between a hit's edge.set and the end of the walk at most |labels|+1 hops
         hops = {}
         for e in r["log"]:
@@ -281,7 +322,8 @@ def run(ctx):
                 hops[e[0]] = hops.get(e[0], 0) + 1
                 if hops[e[0]] == len(g) + 2:
                     bad.append("a chain walk made more than %d hops (unbounded walk)" % (len(g) + 1))
-        key = (r["class"], json.dumps(r["mods"], sort_keys=True), json.dumps(r["pkgs"], sort_keys=True))
+        key = (r["class"], json.dumps(r["mods"], sort_keys=True), json.dumps(r["pkgs"], sort_keys=True),
+               json.dumps(r.get("faults") or {}, sort_keys=True))
         obs = (ec, tuple(sorted(r["targets"])), tuple(sorted(r["flags"])))
         if not bad and key in by_scenario and by_scenario[key] != obs and not cyc:
             bad.append("result depends on the schedule: %s vs %s" % (by_scenario[key], obs))
@@ -316,17 +358,31 @@ def run(ctx):
                                                if any(e[1] in ("registry.hit",) and e[2] != "" for e in r["log"])})
     ctx.coverage["rule"] = ("%d load graphs (enumerated classes: chains 1..5, diamonds, shared helpers with nested loads, a "
                             "module loaded twice, self-loads, 2/3/4-cycles entered from 1..k packages with tails and acyclic "
-                            "parts, unreached cycle, two cycles sharing a node; plus %d seeded random graphs, half DAGs) x %d "
-                            "runs each (first without jitter, the others with seeded Gosched/sleep jitter at hook points, "
+                            "parts, unreached cycle, two cycles sharing a node; plus %d seeded random graphs, half DAGs; "
+                            "fault family: a file that fails by itself (missing, a directory, syntax error, unknown project, "
+                            "fail() before/between/after its loads, load of an undefined name) shared by 2..4 packages "
+                            "directly, through other modules, under a chain, under a diamond, beside and inside a cycle, two "
+                            "at once, and on a package file, plus %d random graphs with 1-2 random faults; size family: "
+                            "chains, cycles, packages side by side, load statements per file, combs and w x d private chains "
+                            "at sizes %s) x %d runs each (3 for the size family: first without jitter, the second with a "
+                            "rendezvous that holds every package file (and every private chain at its deepest module) "
+                            "mid-execution until all have started, then seeded Gosched/sleep jitter at hook points, "
                             "GOMAXPROCS=%s); non-trivial = at least one registry hit by a loading module (wait path "
                             "taken); distinct by graph and full hook log"
-                            % (len(by_scenario), nrand, reps, runs[0]["procs"] if runs else "?"))
+                            % (len(by_scenario), nrand, nrand // 4, sizes, reps, runs[0]["procs"] if runs else "?"))
+    ctx.coverage["correspondence"]["rendezvous_runs"] = sum(1 for r in runs if r.get("rendezvous"))
+    ctx.coverage["correspondence"]["rendezvous_timeouts"] = sum(r.get("rv_timeouts", 0) for r in runs)
+    ctx.coverage["correspondence"]["runs_with_a_failing_file"] = sum(1 for r in runs if r.get("faults") or
+                                                                      any(p.get("fault") for p in r["pkgs"]))
+    ctx.coverage["correspondence"]["largest_graph"] = max([len(r["mods"]) + len(r["pkgs"]) for r in runs] or [0])
     ctx.coverage["exhaustive"] = False
     ctx.coverage["correspondence"]["distribution"] = dist
     ctx.coverage["correspondence"]["hook_events_replayed"] = nevents
     ctx.coverage["correspondence"]["hop_entries_moved_into_window"] = moved_total
-    ctx.add_samples([{"class": r["class"], "mods": r["mods"], "pkgs": [p["loads"] for p in r["pkgs"]], "err": r["err"][:80],
-                      "events": len(r["log"])} for r, _ in cases[5:8] + cases[-2:]])
+    small = [(r, c) for r, c in cases if len(r["mods"]) <= 8]
+    ctx.add_samples([{"class": r["class"], "mods": r["mods"], "pkgs": [p["loads"] for p in r["pkgs"]],
+                      "faults": r.get("faults") or {}, "err": r["err"][:80], "events": len(r["log"])}
+                     for r, _ in small[5:7] + [x for x in small if x[0].get("faults")][3:5] + small[-1:]])
     if not okc:
         ctx.log("coq evaluation failed", logs[:1])
         ctx.violation("model evaluation failed", {"theorem_or_correspondence": "C06 cases.v evaluation", "log": logs[:2]},
